@@ -49,6 +49,17 @@ def _asked(run: Run) -> set[str]:
     return {"explicit" if q.name == EXPLICIT_QUERY else "other" for q in run.queries if _sat(q.guard)}
 
 
+def _asked_taint(*runs: Run) -> str:
+    """Non-empty when a question is asked under a condition the interpreter could not evaluate (the configuration flags are
+    concrete in every evaluated rule, so such a condition stems from a computation the interpreter does not model): whether the
+    question is asked at this point is then not known."""
+    for run in runs:
+        for q in run.queries:
+            if q.guard not in (TRUE, FALSE) and _sat(q.guard) and _sat(f_not(q.guard)):
+                return f"`{q.name}` is asked under `{show(q.guard)[:140]}`, a condition the interpreter could not evaluate"
+    return ""
+
+
 def _sat(f) -> bool:
     try:
         return satisfiable(f)
@@ -85,13 +96,13 @@ def run_t1(repo: Repo, res: Result, inl: Inliner | None, markers: dict) -> None:
             got = {imp: kind in _asked(run_scenario(repo, Scenario(verb, exc, imp))) for imp in (True, False)}
             ok = all(g == want for g in got.values())
             said = "asked" if all(got.values()) else "not asked" if not any(got.values()) else f"asked only for {'import' if got[True] else 'be-imported-by'} rules"
-            res.add(
-                "C01.T1",
+            _add(
+                res, "C01.T1",
                 f"{prefix}::{kind} question @ {point_name(verb, exc)}",
                 ok,
                 f"'{point_name(verb, exc)}': the {kind} graph question is {said}, documented: {'asked' if want else 'not asked'}",
                 loc,
-                kind="decision-table",
+                "decision-table", _asked_taint(*[run_scenario(repo, Scenario(verb, exc, imp)) for imp in (True, False)]),
             )
     # every legal rule shape is evaluated up to the verdict: no exception on the way
     for sc in legal_scenarios():
@@ -155,7 +166,7 @@ def run_t2_t3(repo: Repo, res: Result, inl: Inliner | None, sem: dict) -> None:
                     res, "C01.T3", f"{grv.relpath}::{grv.qualname}::starvation @ {point_name(verb, exc)}", False,
                     f"'{sc.name}': buckets read {sorted(map(str, used))}, questions asked {sorted(asked)}"
                     + (": a bucket whose data is never requested receives None and passes vacuously" if used - asked else ": a question is asked whose answer no bucket reads"),
-                    where(grv, grv.node), "decision-table", und,
+                    where(grv, grv.node), "decision-table", und or _asked_taint(run_scenario(repo, sc)),
                 )
                 break
     res.analysed["bucket_table"] = table
@@ -699,7 +710,8 @@ def run_t5(repo: Repo, res: Result) -> None:
         zero = {"cfg.should": False, "cfg.should_only": False, "cfg.except_present": False}
         asked = {"explicit" if q.name == EXPLICIT_QUERY else "other" for q in run.queries if _sat(assign_atoms(q.guard, zero))}
         ok = asked == {"other"}
-        res.add("C01.T5", f"{aa.relpath}::{aa.qualname}::alias rewrite [{tag} anything: question]", ok, f"'should not {tag} anything' asks {sorted(asked)}" + ("" if ok else ", expected the 'other' question only (neg(any edge))"), where(aa, aa.node), kind="decision-table")
+        alias_taint = next((f"`{q.name}` is asked under `{show(assign_atoms(q.guard, zero))[:140]}`, a condition the interpreter could not evaluate" for q in run.queries if assign_atoms(q.guard, zero) not in (TRUE, FALSE) and _sat(assign_atoms(q.guard, zero)) and _sat(f_not(assign_atoms(q.guard, zero)))), "")
+        _add(res, "C01.T5", f"{aa.relpath}::{aa.qualname}::alias rewrite [{tag} anything: question]", ok, f"'should not {tag} anything' asks {sorted(asked)}" + ("" if ok else ", expected the 'other' question only (neg(any edge))"), where(aa, aa.node), "decision-table", alias_taint)
 
 
 # the public vocabulary that names modules (RuleSubject / RuleObject) and the methods that announce rule objects
